@@ -10,27 +10,34 @@ use crate::util::{guard, par_map, Kv};
 pub fn meta(_ctx: &Ctx) -> Meta {
     Meta {
         rule: "6 base networks (dense ranges; shape-preserving conv / deconv ranges; conv(k2,p1)+pool(k2,s1) composite; max-pool as range entry; flat dense output re-read as 1x3x3 at the range entry; range ending in a layer that is flattened for a following dense layer) x EVERY range a <= b whose output shape equals the input shape of a (start / middle / end) x k in 1..3 (4, 5, 6, 9 for two ranges per network) x all 5 accumulations x input skips on/off (with input skips also under a multiplicative / overwrite SKIP-connection accumulation, which must not matter) x 2 exact integer valuations (one of them with inputs scaled by 2^-20), plus pairs of disjoint ranges (one or both with input skips) and pairs of OVERLAPPING ranges (nested or sharing a layer; for the outer loop's iterations both readings - plain layers, or layers with the inner loop - are accepted); plus loops NEAR A FIXED POINT: 5 ranges of a 3-layer 2->2 linear network whose repeated map is x -> g x + (1-g) (g = 2 repelling, g = 1/2 attracting) started 1 ulp (8 ulp) from the fixed point, k in {8,16,22}, all 5 accumulations - successive iterates differ by a few ulp and all arithmetic is exact. Oracles: reference interpreter y_0=f(x_a), y_t=f(y_{t-1}[+x_a]), out=comb(y_0;y_1..y_k); with overwrite (no input skips) bit-equality with the plain network in which layers a..b are repeated k+1 times with the same weights. Non-trivial = reference output has >= 2 distinct non-zero entries".into(),
-        bound: "k <= 3, ranges of <= 3 layers, planes 3x3".into(),
+        bound: "k <= 3 (9 for two ranges per network), ranges of <= 3 layers, planes 3x3, one channel (thorough: every k in 1..9 and 12 for every range, ranges of <= 5 layers in a 6-layer network, two-channel convolutions, overlapping pairs with (k1,k2) up to 3 under all 5 accumulations)".into(),
         exhaustive: true,
         assumptions: vec!["tolerance 2e-6*max|reference| (mean over 3 operands is not exact); the unrolled-network differential is bit-exact".into()],
     }
 }
 
-fn bases() -> Vec<Net> {
+fn bases(thorough: bool) -> Vec<Net> {
     let d = |n: usize, act: Act| L::Dense { n, act, bias: true, drop: None };
     let conv = |act: Act| L::Conv { f: 1, k: (3, 3), s: (1, 1), p: (1, 1), d: (1, 1), act, drop: None };
     let deconv = |act: Act| L::Deconv { f: 1, k: (3, 3), s: (1, 1), p: (1, 1), act, drop: None };
     let conv_up = L::Conv { f: 1, k: (2, 2), s: (1, 1), p: (1, 1), d: (1, 1), act: Act::Linear, drop: None };
     let pool = L::Pool { k: (2, 2), s: (1, 1) };
     let pool1 = L::Pool { k: (1, 1), s: (1, 1) };
-    vec![
+    let mut out = vec![
         Net::new(Dims::Flat(4), vec![d(4, Act::Relu), d(4, Act::Linear), d(4, Act::Linear), d(3, Act::Linear)]),
         Net::new(Dims::Chw(1, 3, 3), vec![conv(Act::Linear), conv(Act::Relu), deconv(Act::Linear), d(3, Act::Linear)]),
         Net::new(Dims::Chw(1, 3, 3), vec![conv_up.clone(), pool.clone(), conv(Act::Linear), d(3, Act::Linear)]),
         Net::new(Dims::Chw(1, 3, 3), vec![pool1.clone(), conv(Act::Relu), d(3, Act::Linear)]),
         Net::new(Dims::Flat(4), vec![d(9, Act::Linear), conv(Act::Linear), conv(Act::Relu), d(3, Act::Linear)]),
         Net::new(Dims::Chw(1, 3, 3), vec![conv(Act::Linear), conv_up, pool, conv(Act::Linear)]),
-    ]
+    ];
+    if thorough {
+        // deeper bound: ranges of up to 5 layers in a 6-layer dense network, and shape-preserving two-channel convolutions
+        let conv2 = |act: Act| L::Conv { f: 2, k: (3, 3), s: (1, 1), p: (1, 1), d: (1, 1), act, drop: None };
+        out.push(Net::new(Dims::Flat(4), vec![d(4, Act::Relu), d(4, Act::Linear), d(4, Act::Relu), d(4, Act::Linear), d(4, Act::Linear), d(3, Act::Linear)]));
+        out.push(Net::new(Dims::Chw(2, 3, 3), vec![conv2(Act::Linear), conv2(Act::Relu), conv2(Act::Linear), d(3, Act::Linear)]));
+    }
+    out
 }
 
 /// ranges (a,b) with outputs(b) == inputs(a) as announced shapes
@@ -49,11 +56,11 @@ fn ranges(net: &Net) -> Vec<(usize, usize)> {
 
 pub fn nets(thorough: bool) -> Vec<Net> {
     let mut out = Vec::new();
-    for base in bases() {
+    for base in bases(thorough) {
         let rs = ranges(&base);
         for (ri, &(a, b)) in rs.iter().enumerate() {
             // beyond the small bound: 4, 5, 6 and 9 iterations for the first two ranges of every base network
-            let ks: Vec<usize> = if thorough || ri < 2 { vec![1, 2, 3, 4, 5, 6, 9] } else { vec![1, 2, 3] };
+            let ks: Vec<usize> = if thorough { vec![1, 2, 3, 4, 5, 6, 7, 8, 9, 12] } else if ri < 2 { vec![1, 2, 3, 4, 5, 6, 9] } else { vec![1, 2, 3] };
             for k in ks {
                 for acc in A5 {
                     for inskips in [false, true] {
@@ -78,8 +85,10 @@ pub fn nets(thorough: bool) -> Vec<Net> {
         for &(a1, b1) in &rs {
             for &(a2, b2) in &rs {
                 if b1 < b2 && a2 <= b1 {
-                    for acc in [Acc::Mean, Acc::Add, Acc::Over] {
-                        for (k1, k2) in [(2usize, 1usize), (1, 2)] {
+                    let accs: Vec<Acc> = if thorough { A5.to_vec() } else { vec![Acc::Mean, Acc::Add, Acc::Over] };
+                    let kk: Vec<(usize, usize)> = if thorough { vec![(2, 1), (1, 2), (1, 1), (2, 2), (3, 1), (1, 3)] } else { vec![(2, 1), (1, 2)] };
+                    for &acc in &accs {
+                        for &(k1, k2) in &kk {
                             let mut n = base.clone();
                             n.loopacc = acc;
                             n.loopbacks = vec![(b1, a1, k1, false), (b2, a2, k2, false)];
